@@ -30,7 +30,7 @@ import (
 
 func TestMain(m *testing.M) {
 	stats.Init("C10")
-	stats.Rule("socket constructor (24) x transport {inproc,tcp,ipc,ws,tls+tcp,wss} x role x 0-2 contexts x activity set {blocked Recv (socket+contexts), blocked Sends (no peer / back-pressuring vt peer, small write queue), async redial to an absent listener, silent peer in handshake (listener and dialer side), peer closing concurrently, running Device}; then Close of the socket (optionally a context first). Also: 2-5 dialers parked on the socket's listener; REQ without peer with Send and Recv blocked on one context; Close racing the start of the activities; partial close incl. Pipe.Close from the socket's own Attaching/Attached callback; Close racing 2-8 silent raw peers that keep connecting (5-15 sockets per case). Non-trivial: >=1 call verified blocked, or a dial/handshake in flight, at the moment of Close; distinct by (constructor, transport, activities)")
+	stats.Rule("socket constructor (24) x transport {inproc,tcp,ipc,ws,tls+tcp,wss} x role x 0-2 contexts x activity set {blocked Recv (socket+contexts), blocked Sends (no peer / back-pressuring vt peer, small write queue), async redial to an absent listener, silent peer in handshake (listener and dialer side), peer closing concurrently, running Device}; then Close of the socket (optionally a context first). Also: 2-5 dialers parked on the socket's listener; REQ without peer with Send and Recv blocked on one context; Close racing the start of the activities; partial close incl. Pipe.Close from the socket's own Attaching/Attached callback; Close racing 2-8 silent raw peers that keep connecting (5-15 sockets per case). Non-trivial: >=1 call verified blocked, or a dial/handshake in flight, at the moment of Close; distinct by (constructor, transport, activities). Round 5: late server: the dialed server completes the handshake after (or around) Socket.Close; the connection must be closed by the library")
 	stats.Assume("'promptly' = 3 s; resource quiescence is polled for up to 3 s; leaked timers are visible only through their effects")
 	rc := m.Run()
 	stats.Flush()
